@@ -2,7 +2,7 @@ import CffiVerif.Model.DefineLiteral
 
 /-!
 Model of the *error behaviour* of `Parser._parse_constant` / `Parser._c_div`
-(`/repo/src/cffi/cparser.py`, as it is after the `fix:` commit 5c1f477): which exception
+(`/repo/src/cffi/cparser.py`, as it is after the `fix:` commits 5c1f477 and 153798b): which exception
 type leaves the evaluator of constant expressions (array lengths, enum values, bit-field
 widths) for which expression tree.
 
@@ -26,7 +26,6 @@ open CffiVerif.DefineLiteral (pyInt inRange)
 inductive Exc where
   | cdefError       -- cffi.CDefError
   | ffiError        -- cffi.FFIError
-  | valueError      -- ValueError from `int(s, 16)` / `int(s, 2)` in the `except ValueError:` block
   | overflowError   -- OverflowError / MemoryError from `left << right`
   | indexError      -- `s[0]` of an empty token (pycparser produces none)
   deriving DecidableEq, Repr, Inhabited
@@ -78,17 +77,15 @@ def evalConst (tok : List Char) : Except Exc Int :=
       match first with
       | some v => .ok v
       | none =>
-        -- except ValueError:
-        if s.length > 1 then
-          if (s.take 2).map lowerAscii == ['0', 'x'] then
-            match pyInt 16 s with
-            | some v => .ok v
-            | none => .error .valueError           -- raised inside the handler
-          else if (s.take 2).map lowerAscii == ['0', 'b'] then
-            match pyInt 2 s with
-            | some v => .ok v
-            | none => .error .valueError
-          else .error .cdefError
+        -- except ValueError:  try: int(s, 16) / int(s, 2)  except ValueError: pass;  raise CDefError
+        if (s.take 2).map lowerAscii == ['0', 'x'] then
+          match pyInt 16 s with
+          | some v => .ok v
+          | none => .error .cdefError              -- e.g. a hexadecimal floating constant
+        else if (s.take 2).map lowerAscii == ['0', 'b'] then
+          match pyInt 2 s with
+          | some v => .ok v
+          | none => .error .cdefError
         else .error .cdefError
     else
       match tok with
@@ -175,17 +172,9 @@ def eval (shlLimit : Nat) (env : Env) (partialOk : Bool) (e : Expr) : Except Exc
       else .error .ffiError
   | e => (evalInt shlLimit env e).map .int
 
-/-- A `Constant` token on which the `except ValueError:` block itself raises: it starts like
-a hexadecimal / binary literal but `int(s, 16)` / `int(s, 2)` refuses it (hexadecimal
-floating constants `0x1p3`, `0x1.8p1`). -/
-def badRadixToken (tok : List Char) : Bool :=
-  let s := rstripSuffix tok
-  (((s.take 2).map lowerAscii == ['0', 'x']) && (pyInt 16 s).isNone) ||
-  (((s.take 2).map lowerAscii == ['0', 'b']) && (pyInt 2 s).isNone)
-
-/-- No token of the tree is empty or a `badRadixToken`. -/
+/-- No `Constant` token of the tree is empty (pycparser produces none; `s[0]` would be an IndexError). -/
 def TokensOk : Expr → Prop
-  | .const tok => tok ≠ [] ∧ badRadixToken tok = false
+  | .const tok => tok ≠ []
   | .unary _ e => TokensOk e
   | .id _ => True
   | .binop _ l r => TokensOk l ∧ TokensOk r
